@@ -2801,6 +2801,9 @@ PROPS = {
              Ls={"quick": [0, 3], "thorough": [0, 1, 2, 3, 4]}, assumptions=["moved-from States are not used again (C++ contract)"]),
  "C18": dict(level="proof", gen=None, special=special_c18, rule="seeded random mechanisms x L=1..4 x five parameter sets: (i) the textual IR of every function the LLVM backend generates (forcing, Jacobian on the declared and on the fill-closed pattern, Doolittle decomposition, linear solve, diagonal shift) read back into a lane-loop program and compared, loop for loop, with the program the model generates from the same tables/pattern; (ii) JIT-built solver and JIT functions vs CPU vector solver/kernels on identical data, bitwise; objects under test reached by construction and by move-assignment; cell count L+1 rejected at build time, block counts L-1, L+1, 2L, 3L rejected at run time",
              Ls={"quick": [0], "thorough": [0]},
+             trusted_extra=["tools/jit_ir.py: reader of the textual LLVM IR (checks the loop shape of every basic block, extracts destination and expression)",
+                            "MICM_VERIF hook in JitFunction::Generate prints the module that is then compiled",
+                            "LLVM 14 optimiser, code generator and ORC JIT (after the captured IR)", "commutativity of IEEE-754 multiplication"],
              explanation="Theorems (C18b, C18c): running the generated program (model of the five code generators, Model/JitProg.lean) computes exactly what the vectorised C++ kernel of the CPU backend computes for one group of L cells -- forcing, Jacobian (any flat-id table), Doolittle decomposition (any prior contents of L/U), forward/backward substitution, diagonal shift -- for every table/pattern, every L and every input; the guards reject every cell count other than L. The program is tied to the implementation on every run: the implementation emits its IR through the MICM_VERIF sink in JitFunction::Generate, tools/jit_ir.py checks that every basic block has the modelled loop shape and extracts (destination, expression) per loop, and the result must equal the model's program. The CPU vector kernels are tied to the per-cell specification by C01/C02/C03/C04/C13.",
              missing="LLVM's optimiser, instruction selection and the ORC JIT linker are trusted (the IR is captured before optimisation; the differential execution of the compiled functions is the only evidence about them); IEEE multiplication is assumed commutative (the generated code multiplies rate*yield and x*U where the C++ multiplies yield*rate and U*x); that a JIT-built solver runs the same Rosenbrock driver as the CPU solver is by construction of the C++ template (JitRosenbrockSolver derives from AbstractRosenbrockSolver) and checked by whole-solve bitwise comparison, not by a theorem"),
  "C19": dict(level="proof", gen=g_c19, rule="all non-empty patterns n<=3 (quick) / n<=4 (thorough) + random larger, block counts 1..2L+1; all dense shapes rows 0..3L+1 x cols 0..6",
